@@ -15,6 +15,7 @@ import (
 	"os/exec"
 	"strings"
 	"sync"
+	"sync/atomic"
 	"time"
 
 	"verif/harness/evid"
@@ -49,9 +50,34 @@ type Response struct {
 	SampleNote string         `json:"sample_note,omitempty"`
 }
 
+// probeStarted is the start time (unix nanoseconds) of the probe in flight, 0 when idle.
+var probeStarted atomic.Int64
+
+const stallExit = 3
+
+// probeLimit bounds one library call inside the worker. A call on an input of
+// at most a few KiB normally takes microseconds; one that exceeds the limit is
+// a stall (not judged by this property): the worker exits with stallExit so
+// that the parent can skip the probe without waiting for the case time-out.
+func probeLimit() time.Duration {
+	if os.Getenv("VERIF_TIER") == "thorough" {
+		return 10 * time.Second
+	}
+	return 3 * time.Second
+}
+
 func workerMain() {
 	in := bufio.NewReaderSize(os.Stdin, 1<<20)
 	out := bufio.NewWriterSize(os.Stdout, 1<<16)
+	go func() {
+		limit := probeLimit()
+		for {
+			time.Sleep(100 * time.Millisecond)
+			if t := probeStarted.Load(); t != 0 && time.Since(time.Unix(0, t)) > limit {
+				os.Exit(stallExit)
+			}
+		}
+	}()
 	for {
 		line, err := in.ReadBytes('\n')
 		if len(line) > 1 {
@@ -160,6 +186,7 @@ func stopWorker() {
 type exchange struct {
 	resp     *Response
 	died     bool
+	exit     int
 	timedOut bool
 	last     *ProbeInfo // probe in flight when the worker died / stalled
 	tail     string
@@ -170,7 +197,7 @@ func caseTimeout() time.Duration {
 	if evid.Thorough() {
 		return 60 * time.Second
 	}
-	return 15 * time.Second
+	return 20 * time.Second
 }
 
 func (w *worker) do(req *Request) exchange {
@@ -187,8 +214,15 @@ func (w *worker) do(req *Request) exchange {
 		select {
 		case line, ok := <-w.lines:
 			if !ok {
-				w.cmd.Wait()
-				return exchange{died: true, last: last, tail: w.errBuf.String()}
+				code := -1
+				if err := w.cmd.Wait(); err != nil {
+					if ee, ok := err.(*exec.ExitError); ok {
+						code = ee.ExitCode()
+					}
+				} else {
+					code = 0
+				}
+				return exchange{died: true, exit: code, last: last, tail: w.errBuf.String()}
 			}
 			switch {
 			case strings.HasPrefix(line, "P "):
@@ -259,7 +293,7 @@ func runCase(c Case, known []string) outcome {
 			return out
 		}
 		out.evals++
-		if ex.timedOut {
+		if ex.timedOut || ex.exit == stallExit {
 			// "never stalls" is not part of this property: recorded, not judged
 			out.labels["stalled-probe(not judged)."+ex.last.Group]++
 			req.Skip = append(req.Skip, ex.last.ID)
